@@ -33,10 +33,14 @@ Tag == <<"alphaTag", "bravoTag", "charlieTag", "deltaTag">>
 SeqOf(i) == << SeqP(1, "1", << El(Item[i], B("string"), 1, "1"), El(Count[i], B("int"), 0, "unb") >>) >>
 ChoiceOf(i) == << SeqP(1, "1", << ChoiceP(<< El(Left[i], B("string"), 1, "1"), El(Right[i], B("long"), 1, "1") >>) >>) >>
 AttrsOf(i) == << At(Key[i], B("string"), "req"), At(Tag[i], B("int"), "opt") >>
-ContentOf(kind, i) == CASE kind = "seq" -> SeqOf(i) [] kind = "seqattrs" -> SeqOf(i) [] kind = "choice" -> ChoiceOf(i) [] OTHER -> <<>>
+\* the choice is the whole content (of the type, or of the extension), and may repeat
+TopChoiceOf(i) == << [k |-> "choice", min |-> 0, max |-> "unb", ps |-> << El(Left[i], B("string"), 1, "1"), El(Right[i], B("long"), 1, "1") >>] >>
+ContentOf(kind, i) == CASE kind = "seq" -> SeqOf(i) [] kind = "seqattrs" -> SeqOf(i) [] kind = "choice" -> ChoiceOf(i)
+                        [] kind = "topchoice" -> TopChoiceOf(i) [] OTHER -> <<>>
 AttrOf(kind, i) == IF kind \in {"attrs", "seqattrs"} THEN AttrsOf(i) ELSE <<>>
 
 AllKinds == {"empty", "seq", "choice", "attrs", "seqattrs"}
+AllKindsX == AllKinds \cup {"topchoice"}
 \* user = "ref_first": the file starts with a type that REFERS to the global element carrying the root base's name
 \* (so that the element is looked up, ahead of its declaration, before any base is)
 \* rec = "tree": the root base contains a reference to the global element AlphaChild, whose anonymous type EXTENDS the
